@@ -197,4 +197,37 @@ example : ∃ g1 w, addBuild g0 b0 = .ok (g1, w) ∧ g1.files[0]? = some ⟨[97]
   refine ⟨_, _, by simp [addBuild, claimOuts, g0, b0, modFile]; exact ⟨rfl, rfl⟩, ?_⟩
   simp
 
+/-- **A second statement for the same output is rejected by the loader** (statement level): when
+    the paths of a `build` statement have been evaluated and interned and one of its outputs is a
+    file that an earlier statement (of this or of any included file - the graph is shared)
+    already produces, `Loader::add_build` fails, whatever else the statement says; with
+    `C10.manifest_read_as_written` the whole load fails (`applyItems` propagates the error) and
+    nothing is scheduled. -/
+theorem duplicate_output_statement_is_rejected (l l1 l2 : Loader) (file : Bytes) (vars : StrMap) (b : Parse.PBuild)
+    (ins outs : List Nat)
+    (h1 : evalPaths l [envOfEval b.vars, envOfStr vars] b.ins = .ok (l1, ins))
+    (h2 : evalPaths l1 [envOfEval b.vars, envOfStr vars] b.outs = .ok (l2, outs))
+    (o prev : Nat) (f : FileM) (ho : o ∈ outs) (hf : l2.graph.files[o]? = some f) (hin : f.input = some prev)
+    (hne : prev ≠ l2.graph.builds.length) :
+    ∃ e, loaderAddBuild l file vars b = .error e := by
+  unfold loaderAddBuild
+  simp only [h1, h2]
+  cases Eval.lookup l2.rules b.rule with
+  | none => exact ⟨_, rfl⟩
+  | some rule =>
+    simp only []
+    split
+    · exact ⟨_, rfl⟩
+    · split
+      · exact ⟨_, rfl⟩
+      · have hx : ∀ (bm : BuildM) (r : GraphM × Nat), bm.outs = outs → addBuild l2.graph bm ≠ .ok r := by
+          intro bm r hbo hh
+          obtain ⟨e, he⟩ := second_rejected l2.graph bm o prev f (by rw [hbo]; exact ho) hf hin hne
+          rw [he] at hh; cases hh
+        split
+        · exact ⟨_, rfl⟩
+        · rename_i heq
+          exact absurd heq (hx _ _ rfl)
+
+
 end N2V.C14
